@@ -102,7 +102,7 @@ proc_line(struct prln_ctx_s ctx, char *line, size_t llen)
 			}
 			*bp++ = '\001';
 			if (!dt_sandwich_only_d_p(d)) {
-				bp += dt_strfdt(bp, ep - bp, "%T", d);
+				bp += dt_strfdt(bp, ep - bp, "%T.%N", d);
 			}
 		} else {
 			/* just two empty fields then, innit? */
